@@ -365,3 +365,73 @@ Definition inv_b (st : doc * table) : bool :=
                            && Bool.eqb (t_claimed t) (owners (t_id t) (snd st) =? 1)%nat)) (fst st)
   && forallb (fun e => match fst e with SRep _ => true | _ => (length (snd e) <=? 1)%nat end) (snd st).
 Definition all_claimed_b (d : doc) : bool := forallb (fun t => negb (is_comment t) || t_claimed t) d.
+
+(* the comment `_claim_comment` would look at from `start` (placeholders aside, exactly one line break away,
+   of the model's indentation class), whatever its claimed flag: the shape hypothesis of the restore theorem *)
+Definition adjacent_comment (d : doc) (start : Z) (backwards : bool) (indented : option bool) : option tok :=
+  match walk d start backwards with
+  | Some w =>
+    let '(_, r1) := take_ignored w in
+    match r1 with
+    | nl :: r1' =>
+      if is_nl nl then
+        let '(_, r2) := take_ignored r1' in
+        match r2 with
+        | c :: _ =>
+          if is_comment c
+             && (match indented with Some b => Bool.eqb (comment_indented c) b | None => true end)
+          then Some c else None
+        | [] => None
+        end
+      else None
+    | [] => None
+    end
+  | None => None
+  end.
+
+(* cstep together with what the call returned: (returned comment ids, new item list) or the exception *)
+Definition cstep_obs (st : doc * table) (o : cop) : res (list Z * list oitem) * (doc * table) :=
+  let '(d, tb) := st in
+  match o with
+  | OS (ClaimLead n start ig ind) =>
+    match claim_comment (cur_of (tget tb (SLead n))) d start true ig ind with
+    | (Ok r, d') => (Ok (opt_list r, []), (d', tset tb (SLead n) (opt_list r)))
+    | (Err e, d') => (Err e, (d', tb))
+    end
+  | OS (ClaimTrail n start ig ind) =>
+    match claim_comment (cur_of (tget tb (STrail n))) d start false ig ind with
+    | (Ok r, d') => (Ok (opt_list r, []), (d', tset tb (STrail n) (opt_list r)))
+    | (Err e, d') => (Err e, (d', tb))
+    end
+  | OS (UnclaimLead n) =>
+    let '(r, now, d') := unclaim_comment (cur_of (tget tb (SLead n))) d in
+    (Ok (opt_list r, []), (d', tset tb (SLead n) (opt_list now)))
+  | OS (UnclaimTrail n) =>
+    let '(r, now, d') := unclaim_comment (cur_of (tget tb (STrail n))) d in
+    (Ok (opt_list r, []), (d', tset tb (STrail n) (opt_list now)))
+  | OClaimInter r ph items mf ml flt =>
+    match claimer_claim d ph items mf ml flt with
+    | (Ok (ret, its), d') => (Ok (ret, its), (d', tset tb (SRep r) (comments_of its)))
+    | (Err e, d') => (Err e, (d', tb))
+    end
+  | OUnclaimInter r items flt =>
+    match unclaim_inter d items flt with
+    | (Ok (ret, its), d') => (Ok (ret, its), (d', tset tb (SRep r) (comments_of its)))
+    | (Err e, d') => (Err e, (d', tb))
+    end
+  end.
+
+Definition op_slot (o : cop) : slot :=
+  match o with
+  | OS (ClaimLead n _ _ _) | OS (UnclaimLead n) => SLead n
+  | OS (ClaimTrail n _ _ _) | OS (UnclaimTrail n) => STrail n
+  | OClaimInter r _ _ _ _ _ | OUnclaimInter r _ _ => SRep r
+  end.
+
+(* every comment entry of the item list names a block comment of the store *)
+Definition refs_ok_b (d : doc) (items : list item) : bool :=
+  forallb (fun c => existsb (fun t => (t_id t =? c) && is_comment t) d) (old_comments items).
+(* hypotheses of the idempotence theorem for one call made by auto_claim_comments *)
+Definition auto_ok (st : doc * table) (o : cop) : bool :=
+  is_auto_op o && op_ok st o &&
+  match o with OClaimInter _ _ items _ _ _ => refs_ok_b (fst st) items | _ => true end.
